@@ -153,6 +153,24 @@ def c16_link(R):
     l1, l2 = ir.Linker(loader=CountingLoader({})), ir.Linker(loader=CountingLoader({}))
     l1.AddModule(mk_module(["f"], [], []))
     R.check("C16.link.isolated", L + "::Linker.__init__", sorted(l2.Link().Functions) == [], detail="a second Linker sees the first one's modules")
+    # the file loader returns what the file holds NOW (a rebuilt library must not be served from an earlier load), also through Linker()'s default loader
+    import os, pickle, tempfile, shutil
+    tmp = tempfile.mkdtemp(prefix="nslverif-c16-")
+    try:
+        path = os.path.join(tmp, "lib")
+        results = []
+        fl = ir.FilesystemModuleLoader()
+        for rnd, fname in enumerate(("first", "second")):
+            with open(path + ".nslir", "wb") as fh:
+                pickle.dump(mk_module([fname]), fh)
+            results.append(sorted(fl.Load(path).Functions))
+            lk = ir.Linker()
+            lk.AddModule(mk_module(["main"], [], [path]))
+            results.append(sorted(lk.Link().Functions))
+        R.check("C16.loader.file.current", L + "::FilesystemModuleLoader.Load", results == [["first"], ["first", "main"], ["second"], ["main", "second"]],
+                detail=f"a module stored, loaded, stored again with other contents and loaded again (same loader object / default loader of Linker): {results}")
+    finally:
+        shutil.rmtree(tmp, ignore_errors=True)
     ml = ir.MemoryModuleLoader()
     m = mk_module(["f"])
     ml.AddModule("x", m)
@@ -190,6 +208,7 @@ def c16_meta(R):
         "with-global": "int counter;\nexport function bump(int a) -> int { counter = (counter + a); return counter; }",
         "with-struct": "struct Pair { int a; int b; }\nexport function first(int a) -> int { Pair p; p.a = a; return p.a; }",
         "overloads": "function pick(int a) -> int { return 1; }\nfunction pick(float a) -> int { return 2; }\nexport function use(int a) -> int { return pick(a); }",
+        "half-overload-set": "function choose(int a) -> int { return 100; }\nexport function libuse(int a) -> int { return choose(a); }",
     }
     compiled = {}
     for name, src in libs.items():
@@ -208,6 +227,9 @@ def c16_meta(R):
         "with-struct": ('import "with-struct";\nexport function f(int x) -> int { return first(x); }', "first"),
         "import-not-first": ('int mine;\nimport "plain";\nexport function f(int x) -> int { return twice(x); }', "twice"),
         "two-imports": ('import "plain";\nimport "with-global";\nexport function f(int x) -> int { return bump(twice(x)); }', "bump"),
+        # an overload set split over the two modules is ranked as ONE set: the exact match lives in the library
+        "split-overloads": ('import "half-overload-set";\nfunction choose(float a) -> int { return 200; }\nexport function f(int x) -> int { return choose(x); }', None),
+        "split-overloads-local-exact": ('import "half-overload-set";\nfunction choose(float a) -> int { return 200; }\nexport function f(float x) -> int { return choose(x); }', None),
     }
     for name, (src, callee) in mains.items():
         r, exc = compile_with(src, ld)
@@ -218,7 +240,7 @@ def c16_meta(R):
             m = r.IRModule
             want_imports = set(x.split('"')[1] for x in src.splitlines() if x.startswith("import"))
             calls = [i for fn in m.Functions.values() for i in fn.Instructions if isinstance(i, LinearIR.CallInstruction)]
-            ok = set(m.Imports) == want_imports and any(c.Function == callee for c in calls) and all(any(c.Function in lib.Functions for lib in compiled.values()) for c in calls)
+            ok = set(m.Imports) == want_imports and (callee is None or (any(c.Function == callee for c in calls) and all(any(c.Function in lib.Functions for lib in compiled.values()) for c in calls)))
             det = f"imports {set(m.Imports)} (expected {want_imports}); calls {[c.Function for c in calls]}"
             if ok:
                 # link and run: behaves like the single-module program
@@ -231,7 +253,7 @@ def c16_meta(R):
                     if "counter" in prog.Globals:
                         vm.SetGlobal("counter", 10)
                     got = vm.Invoke("f", x=4)
-                    want = {"plain": 8, "with-global": 14, "with-struct": 4, "import-not-first": 8, "two-imports": 18}[name]
+                    want = {"plain": 8, "with-global": 14, "with-struct": 4, "import-not-first": 8, "two-imports": 18, "split-overloads": 100, "split-overloads-local-exact": 200}[name]
                     ok, det = got == want, f"linked program: f(4) = {got}, expected {want}"
                 except Exception as e:
                     ok, det = False, f"link/run raised {type(e).__name__}: {e}"
